@@ -5,8 +5,10 @@ from .sym import Contract
 CONTRACTS: list[Contract] = []
 
 
-def contract(qual, joined_locals=(), comps=None, match_params=None, defines=(), replay_hook=None, **kw):
+def contract(qual, joined_locals=(), comps=None, match_params=None, defines=(), replay_hook=None, assumes=(), opaque_specs=(), **kw):
     c = Contract(qual, **kw)
+    c.opaque_specs = tuple(opaque_specs)
+    c.assumes = list(assumes)
     c.replay_hook = replay_hook
     c.defines = list(defines)
     c.match_params = match_params or {}
